@@ -64,22 +64,154 @@ theorem fFinal_attrs (s : FState) (x : Nat) : ((fFinal s).defs x).ports = (s.d.d
   · rename_i h; rw [h]; exact ⟨rfl, rfl⟩
   · exact ⟨rfl, rfl⟩
 
+theorem fFinal_frame (s : FState) : (fFinal s).ndefs = s.d.ndefs ∧ (fFinal s).top = s.d.top ∧
+    (fFinal s).order = s.d.order := ⟨rfl, rfl, rfl⟩
+
 theorem fFinal_children_sub (s : FState) (x : Nat) {j : Inst} (h : j ∈ ((fFinal s).defs x).children) :
-    j ∈ (s.d.defs x).children ∧ j.id ∉ s.toRemove := by
+    j ∈ (s.d.defs x).children := by
   rw [fFinal_defs] at h
   split at h
-  · rename_i hx
-    obtain ⟨h1, h2⟩ := List.mem_filter.mp h
-    rw [hx]
-    exact ⟨h1, by simpa using h2⟩
-  · -- an untouched definition: `toRemove` members are children of top only, but we do not need that
-    exact ⟨h, by
-      intro hmem
-      exact absurd hmem (by
-        -- cannot be decided here; strengthen below where needed
-        exact fun _ => by
-          exact absurd h (by intro _; exact absurd rfl (by intro (e : x = x); exact (by
-            exact absurd trivial (by simp)))))⟩
+  · rename_i hx; rw [hx]; exact (List.mem_filter.mp h).1
+  · exact h
+
+theorem fFinal_children_keep (s : FState) (x : Nat) {j : Inst} (h : j ∈ (s.d.defs x).children)
+    (hn : j.id ∉ s.toRemove) : j ∈ ((fFinal s).defs x).children := by
+  rw [fFinal_defs]
+  split
+  · rename_i hx; rw [hx] at h
+    exact List.mem_filter.mpr ⟨h, by simpa using hn⟩
+  · exact h
+
+/-- a removed shell references a dissolved definition -/
+theorem FInvA.removed_dissolved (hyp : Hyp d0) (inv : FInvA d0 s moved) {j : Inst} (hj : InstIn s.d j)
+    (hr : j.id ∈ s.toRemove) : Dissolved d0 moved j.ref ∧ j.ref < d0.ndefs ∧ j.ref ≠ d0.top := by
+  rw [inv.toRemove] at hr
+  obtain ⟨m, hm, hmid⟩ := List.mem_map.mp hr
+  obtain ⟨hmm, hml⟩ := List.mem_filter.mp hm
+  have hjm : j ∈ moved := inv.inst_moved hj (List.mem_map.mpr ⟨m, hmm, hmid⟩)
+  have : m = j := nodup_map_inj inv.movedNodup hmm hjm hmid
+  subst this
+  obtain ⟨q, c0, hq, hc0, _, hmr⟩ := inv.moved_reach hmm
+  refine ⟨⟨m, hmm, rfl, by simpa using hml⟩, ?_, ?_⟩
+  · rw [hmr]; exact (hyp.wf.2.1 q (by simpa using reach_lt hyp.wf hq)).1 c0 hc0
+  · rw [hmr]; exact reach_child_ne_top hyp.acyc hyp.wf hq hc0
+
+theorem sadj_final (hyp : Hyp d0) (inv : FInvA d0 s moved) (a b : UNode) : SAdj (fFinal s) a b ↔ SAdj s.d a b := by
+  have hcab : ∀ x, ((fFinal s).defs x).cables = (s.d.defs x).cables := fFinal_cables s
+  refine wadj_congr (fun l p => by show p ∈ pinsAt ((fFinal s).defs s.d.top).cables l ↔ _; rw [hcab]) ?_ a b
+  intro a b
+  constructor
+  · intro h
+    cases h with
+    | outer hx hxt hc hw hp => exact RestAdj.outer hx hxt (by rw [← hcab]; exact hc) hw hp
+    | inner hx hxt hc hw hp hj hr =>
+      obtain ⟨z, hz, hjz⟩ := hj
+      exact RestAdj.inner hx hxt (by rw [← hcab]; exact hc) hw hp ⟨z, hz, fFinal_children_sub s z hjz⟩ hr
+  · intro h
+    cases h with
+    | outer hx hxt hc hw hp => exact RestAdj.outer hx hxt (by rw [hcab]; exact hc) hw hp
+    | @inner x c k w j pi bit hx hxt hc hw hp hj hr =>
+      by_cases hrem : j.id ∈ s.toRemove
+      · exfalso
+        obtain ⟨hd, hlt, hnt⟩ := inv.removed_dissolved hyp hj hrem
+        rw [hr] at hd hlt hnt
+        rw [inv.cablesGone x hlt hnt hd] at hc
+        simp at hc
+      · obtain ⟨z, hz, hjz⟩ := hj
+        exact RestAdj.inner hx hxt (by rw [hcab]; exact hc) hw hp ⟨z, hz, fFinal_children_keep s z hjz hrem⟩ hr
+
+theorem conn_final (hyp : Hyp d0) (invA : FInvA d0 s moved) (invB : FInvB d0 s moved) {a b : UNode}
+    (ha : UEndpoint d0 a) (hb : UEndpoint d0 b) : ConnU d0 a b ↔ ConnU (fFinal s) a b := by
+  have htop : s.d.top = d0.top := invA.top
+  have hcab : ((fFinal s).defs (fFinal s).top).cables = (s.d.defs d0.top).cables := by
+    show ((fFinal s).defs s.d.top).cables = _
+    rw [fFinal_cables, htop]
+  have h1 := invB.conn a b ha hb
+  have h2 := (conn_congr (sadj_final hyp invA) a b).symm
+  have h3 : Conn (UAdj (fFinal s)) a b ↔ Conn (SAdj (fFinal s)) a b := by
+    refine conn_congr (fun a b => uadj_iff_sadj ?_ ?_ ?_ a b) a b
+    · show s.d.top < s.d.ndefs
+      rw [htop, invA.ndefs]; exact hyp.wf.1
+    · rw [hcab]; exact invB.idsNodup
+    · intro l p hp i pi bb e
+      rw [hcab] at hp
+      subst e
+      exact invB.pins l _ hp
+  exact h1.trans (h2.trans h3.symm)
+
+/-! ### from pin uniqueness back to `Nodup (allPins …)` -/
+
+theorem nodup_flatten_of_getD {α : Type} : ∀ (L : List (List α)), (∀ k, (L.getD k []).Nodup) →
+    (∀ i j p, p ∈ L.getD i [] → p ∈ L.getD j [] → i = j) → L.flatten.Nodup
+  | [], _, _ => by simp
+  | a :: L, h1, h2 => by
+    simp only [List.flatten_cons]
+    refine List.nodup_append.mpr ⟨by simpa [List.getD] using h1 0, ?_, ?_⟩
+    · refine nodup_flatten_of_getD L (fun k => by simpa [List.getD] using h1 (k + 1)) ?_
+      intro i j p hi hj
+      have := h2 (i + 1) (j + 1) p (by simpa [List.getD] using hi) (by simpa [List.getD] using hj)
+      omega
+    · intro x hx y hy hxy
+      subst hxy
+      obtain ⟨w, hw, hxw⟩ := List.mem_flatten.mp hy
+      obtain ⟨k, hk⟩ := List.getElem?_of_mem hw
+      have := h2 0 (k + 1) x (by simpa [List.getD] using hx) (by simpa [List.getD, hk] using hxw)
+      omega
+
+theorem pinsAt_cons_self (c : Cable) (cs : List Cable) (k : Nat) : pinsAt (c :: cs) (c.id, k) = c.wires.getD k [] := by
+  simp [pinsAt]
+
+theorem pinsAt_cons_ne (c : Cable) (cs : List Cable) (l : Label) (h : c.id ≠ l.1) : pinsAt (c :: cs) l = pinsAt cs l := by
+  have hb : (c.id == l.1) = false := by simp [h]
+  simp only [pinsAt, List.find?_cons, hb]
+
+theorem nodup_allPins_of_pinsOk : ∀ (cs : List Cable), (cs.map (·.id)).Nodup → PinsOk (pinsAt cs) → (allPins cs).Nodup
+  | [], _, _ => by simp [allPins]
+  | c :: cs, hnd, ok => by
+    simp only [List.map_cons, List.nodup_cons] at hnd
+    have hne : ∀ c' ∈ cs, c.id ≠ c'.id := fun c' hc' e => hnd.1 (List.mem_map.mpr ⟨c', hc', e.symm⟩)
+    have hrest : ∀ l, l.1 ∈ cs.map (·.id) → pinsAt (c :: cs) l = pinsAt cs l := by
+      intro l hl
+      apply pinsAt_cons_ne
+      intro e
+      exact hnd.1 (e ▸ hl)
+    have okcs : PinsOk (pinsAt cs) := by
+      refine ⟨?_, ?_⟩
+      · intro l
+        by_cases hl : l.1 ∈ cs.map (·.id)
+        · rw [← hrest l hl]; exact ok.nodup l
+        · have : pinsAt cs l = [] := by
+            simp only [pinsAt]
+            cases hf : cs.find? (fun c => c.id == l.1) with
+            | none => rfl
+            | some c' =>
+              exact absurd (List.mem_map.mpr ⟨c', List.mem_of_find?_eq_some hf, by simpa using List.find?_some hf⟩) hl
+          rw [this]; exact List.nodup_nil
+      · intro p l1 l2 h1 h2
+        obtain ⟨c1, hc1, hid1, _⟩ := mem_pinsAt h1
+        obtain ⟨c2, hc2, hid2, _⟩ := mem_pinsAt h2
+        have e1 := hrest l1 (List.mem_map.mpr ⟨c1, hc1, hid1⟩)
+        have e2 := hrest l2 (List.mem_map.mpr ⟨c2, hc2, hid2⟩)
+        exact ok.uniq p l1 l2 (by rw [e1]; exact h1) (by rw [e2]; exact h2)
+    rw [allPins_cons]
+    refine List.nodup_append.mpr ⟨?_, nodup_allPins_of_pinsOk cs hnd.2 okcs, ?_⟩
+    · refine nodup_flatten_of_getD _ (fun k => by rw [← pinsAt_cons_self c cs k]; exact ok.nodup _) ?_
+      intro i j p hi hj
+      rw [← pinsAt_cons_self c cs] at hi hj
+      have := ok.uniq p _ _ hi hj
+      simpa using this
+    · intro x hx y hy hxy
+      subst hxy
+      obtain ⟨w, hw, hxw⟩ := List.mem_flatten.mp hx
+      obtain ⟨k, hk⟩ := List.getElem?_of_mem hw
+      obtain ⟨l, hl⟩ := mem_pinsAt_of_allPins hnd.2 hy
+      obtain ⟨c', hc', hid', _⟩ := mem_pinsAt hl
+      have h1 : x ∈ pinsAt (c :: cs) (c.id, k) := by
+        rw [pinsAt_cons_self]; simpa [List.getD, hk] using hxw
+      have h2 : x ∈ pinsAt (c :: cs) l := by
+        rw [hrest l (List.mem_map.mpr ⟨c', hc', hid'⟩)]; exact hl
+      have := ok.uniq x _ _ h1 h2
+      exact hne c' hc' (by rw [hid', ← this])
 
 end final
 
